@@ -13,7 +13,11 @@ for d in sorted(glob.glob(os.path.join(V, "seeded", "*", ""))):
         re.sub(r"\s+", " ", str(m.get("needs", "")))[:260].replace("|", "/"),
         "**caught**" if oc.get("caught") else "**missed**",
         re.sub(r"\s+", " ", oc.get("by", ""))[:420].replace("|", "/")))
-hdr = "| seed | property | change (agent's summary) | needs, to manifest | verdict | by which rule / why not |\n|---|---|---|---|---|---|\n"
+n_caught = sum(1 for r in rows if "**caught**" in r)
+n_after = sum(1 for r in rows if "**caught**" in r and ("MISSED by" in r or "added after" in r or "added later" in r or "added together" in r))
+summary = ("**%d seeded changes; %d caught on the current checks, %d of those only after a rule was added or corrected because of the seed "
+           "(the verdict column says so); %d missed, each with the reason.**\n\n" % (len(rows), n_caught, n_after, len(rows) - n_caught))
+hdr = summary + "| seed | property | change (agent's summary) | needs, to manifest | verdict | by which rule / why not |\n|---|---|---|---|---|---|\n"
 table = hdr + "\n".join(rows)
 p = os.path.join(V, "DESIGN.md")
 s = open(p).read()
